@@ -655,6 +655,7 @@ func (d *db) checkTopNN(op simrt.Op) {
 	counts := map[uint64]uint64{}
 	var sorted []uint64
 	rowsInShard := map[uint64]int{}
+	perShard := map[uint64]map[uint64]uint64{} // shard -> row -> count
 	for r, m := range f.bits {
 		n := uint64(0)
 		inShard := map[uint64]bool{}
@@ -662,6 +663,10 @@ func (d *db) checkTopNN(op simrt.Op) {
 			if filt == nil || filt[c] {
 				n++
 				inShard[c/pilosa.ShardWidth] = true
+				if perShard[c/pilosa.ShardWidth] == nil {
+					perShard[c/pilosa.ShardWidth] = map[uint64]uint64{}
+				}
+				perShard[c/pilosa.ShardWidth][r]++
 			}
 		}
 		if n > 0 {
@@ -708,6 +713,41 @@ func (d *db) checkTopNN(op simrt.Op) {
 	if len(pairs) != len(sorted) {
 		d.fail("topn-n", "%s on node %d = %v: %d rows, want %d (largest counts %v)", q, d.node(I[0]), pairs, len(pairs), len(sorted), sorted)
 		return
+	}
+	if !exact {
+		// rows that are owed whatever the tie-breaking: among the n best of some shard with no
+		// tie at the cut (a certain candidate), and globally among the n best with no tie either
+		got := map[uint64]bool{}
+		for _, p := range pairs {
+			got[p.ID] = true
+		}
+		for _, r := range simrt.SortedKeys(counts) {
+			ge := 0
+			for _, c := range counts {
+				if c >= counts[r] {
+					ge++
+				}
+			}
+			if ge > n || got[r] {
+				continue
+			}
+			for _, sh := range simrt.SortedKeys(perShard) {
+				m := perShard[sh]
+				if m[r] == 0 {
+					continue
+				}
+				geS := 0
+				for _, c := range m {
+					if c >= m[r] {
+						geS++
+					}
+				}
+				if geS <= n {
+					d.fail("topn-n", "%s on node %d = %v lacks row %d: it is among the %d best rows of shard %d (count %d there) and of the whole field (count %d), with no tie at either cut", q, d.node(I[0]), pairs, r, n, sh, m[r], counts[r])
+					return
+				}
+			}
+		}
 	}
 	seen := map[uint64]bool{}
 	for i, p := range pairs {
